@@ -122,6 +122,62 @@ def run_type(ctx, q, rule="R01.h"):
         ctx.ok(rule, f, f.node, "%s: %d/%d abstract cases agree (None iff allow_None; otherwise iff well typed)" % (name, n, n))
 
 
+def class_selector_model(ctx, rule="R01.h"):
+    """ClassSelector(class_=T, is_instance=False): the value must be a CLASS that is a subclass of T.  Kinds of value: None, a
+    subclass of T, an unrelated class, an INSTANCE of T (not a class: `issubclass` raises TypeError on it -- rejected either
+    way), an instance of something else."""
+    from engine.absint import _Raise
+    hier = ctx.hier
+    q = "param.parameters.ClassSelector"
+    f = hier.resolve(q, "_validate")
+    n, bad = 0, []
+    for allow_none, kind in itertools.product([True, False], ["none", "subclass", "otherclass", "instance-of-T", "other-instance"]):
+        declared = Obj("declared_class", __name__="T")
+        val = None if kind == "none" else Obj("value_" + kind)
+        me = Obj("ClassSelector", allow_None=allow_none, is_instance=False, class_=declared, check_on_set=True, name="p", owner=None)
+
+        def hook(fn, args, kwargs, val=val, kind=kind, declared=declared):
+            subject = args[0] if args else None
+            if fn == "isinstance" and subject is declared:
+                return False            # T is one class, not a tuple of classes
+            if fn == "isinstance" and subject is val and len(args) == 2:
+                if args[1] == "<type type>":
+                    return kind in ("subclass", "otherclass")
+                if args[1] is declared:
+                    return kind == "instance-of-T"
+                raise Unsupported("isinstance(value, %r)" % (args[1],))
+            if fn == "isinstance" and subject is None and len(args) == 2:
+                return False
+            if fn == "issubclass" and len(args) == 2 and args[1] is declared:
+                if subject is None or kind in ("instance-of-T", "other-instance"):
+                    raise _Raise("TypeError")      # issubclass() arg 1 must be a class
+                return kind == "subclass"
+            if fn == "_validate_error_prefix":
+                return "prefix"
+            return NotImplemented
+        it = Interp(hier, dyn=q, inline=lambda m: m.startswith("_validate"), call_hook=hook)
+        try:
+            outs = it.run_all(f, {f.params[0]: me, f.params[1]: val})
+        except Unsupported as e:
+            raise AnalysisError("absint cannot interpret the validators of ClassSelector(is_instance=False): %s -- %s cannot decide" % (e, rule))
+        n += 1
+        want = allow_none if kind == "none" else kind == "subclass"
+        for o in outs:
+            if o.imprecise:
+                raise AnalysisError("absint imprecise on the validators of ClassSelector(is_instance=False, allow_None=%s, value %s): %s" % (allow_none, kind, o.notes[:2]))
+            if (o.kind == "return") != want:
+                bad.append((allow_none, kind, o.kind == "return"))
+    ctx.abstract_cases += n
+    if bad:
+        an, kind, got = bad[0]
+        what = {"none": "None", "subclass": "a subclass of T", "otherclass": "a class that is not a subclass of T", "instance-of-T": "an INSTANCE of T (not a class)",
+                "other-instance": "an instance of an unrelated class"}[kind]
+        ctx.fail(rule, f, f.node, "ClassSelector(class_=T, is_instance=False, allow_None=%s) %s %s (specification: %s)" % (an, "accepts" if got else "rejects", what, "reject" if got else "accept"),
+                 key="%s::is-instance-false-table::%s::%s" % (q, kind, "accept" if got else "reject"), input="param.ClassSelector(class_=T, is_instance=False, allow_None=%s) <- %s" % (an, what))
+    else:
+        ctx.ok(rule, f, f.node, "ClassSelector(is_instance=False): %d/%d abstract cases agree (None iff allow_None; otherwise iff a class that is a subclass of T)" % (n, n))
+
+
 REGEX_TYPES = ("param.parameterized.String", "param.parameters.Bytes")
 
 
@@ -178,6 +234,7 @@ def rule_h(ctx):
     for q in TABLE:
         ctx.repo.cls(q)
         run_type(ctx, q)
+    class_selector_model(ctx)
     ctx.assumptions.append("R01.h: isinstance/_is_number/callable are abstract boolean inputs (their library semantics are trusted); other constraints are switched off")
 
 
